@@ -24,7 +24,9 @@ A violation key names WHAT differed and in WHICH form class it is confined
 ``continuation-line-lost/comments=1``), never an input.
 """
 import io
+import os
 import random
+import warnings
 
 from .. import core
 
@@ -91,20 +93,33 @@ MUST_REACH = ['debian.deb822:Deb822._internal_parser',
               'debian.deb822:_gpg_multivalued.__init__',
               'debian.deb822:_AutoDecoder.decode']
 
-DOCS = {'quick': 3600, 'thorough': 200000}      # random documents (TOTAL over shards); + the enumerated grid
+DOCS = {'quick': 3000, 'thorough': 160000}      # random documents (TOTAL over shards); + the enumerated grid
 
 FLOORS = {
-    # ~50% of what a run on the current tree measures (seed 0)
-    'quick': {'nontrivial': 2000,
-              'monitors': {'M': 180000, 'M.armour': 100000, 'M.comments': 90000, 'M.lead': 90000},
-              'counters': {'feat:first-trailing-blank': 8000, 'feat:first-starts-colon': 1300,
-                           'feat:first-starts-hash': 1200, 'feat:cont-starts-hash': 3400,
-                           'feat:cont-trailing-blank': 12000, 'feat:cont-keyvalue-shaped': 3000,
-                           'feat:cont-marker-lookalike': 900, 'feat:nonascii': 6500, 'feat:multi-line-value': 8000,
-                           'feat:marker-trailing-blank-or-cr': 26000,
-                           'api:Dsc': 27000, 'api:Changes': 27000, 'api:Deb822': 54000, 'api:iter_paragraphs': 79000,
-                           'dump:str': 500, 'dump:fd_b': 500, 'dump:fd_b_enc': 500, 'dump:fd_t': 500,
-                           'doc:paragraphs>=2': 1000}},
+    # ~50% of the minimum a run on the current tree measures over VERIF_SEED 0..3
+    'quick': {'nontrivial': 1800,
+              'monitors': {'M': 220000, 'M.armour': 125000, 'M.comments': 110000, 'M.lead': 110000,
+                           'M.encfile': 42000, 'M.binfile': 13500},
+              'counters': {'feat:first-trailing-blank': 6900, 'feat:first-starts-colon': 1100,
+                           'feat:first-starts-hash': 1000, 'feat:cont-starts-hash': 2800,
+                           'feat:cont-trailing-blank': 9800, 'feat:cont-keyvalue-shaped': 2400,
+                           'feat:cont-marker-lookalike': 780, 'feat:nonascii': 4600, 'feat:multi-line-value': 6800,
+                           'feat:marker-trailing-blank-or-cr': 23500,
+                           'feat:name-starts-digit': 850, 'feat:name-starts-punct': 2700,
+                           'api:Dsc': 29500, 'api:Changes': 29500, 'api:Deb822': 66000, 'api:iter_paragraphs': 96000,
+                           'dump:str': 450, 'dump:fd_b': 450, 'dump:fd_b_enc': 450, 'dump:fd_t': 450,
+                           'doc:paragraphs>=2': 880,
+                           # real text file objects with a declared encoding / real binary files: a run that never
+                           # exercises them (or only with text every encoding maps identically) is inconclusive
+                           'form:tw': 21000, 'form:tf': 21000,
+                           'enc:utf-8': 6900, 'enc:UTF-8': 6800, 'enc:iso-8859-1': 4200, 'enc:latin-1': 4100,
+                           'enc:cp1252': 10300, 'enc:utf-16': 9800,
+                           'enc-nonascii:utf-8': 3900, 'enc-nonascii:UTF-8': 3900, 'enc-nonascii:iso-8859-1': 1250,
+                           'enc-nonascii:latin-1': 1250, 'enc-nonascii:cp1252': 4500, 'enc-nonascii:utf-16': 5700,
+                           'enc-ascii:utf-16': 3600, 'enc-ascii:cp1252': 5300, 'enc-ascii:iso-8859-1': 2600,
+                           'enc-ascii:latin-1': 2600,
+                           'encfile-api:Deb822': ENCFILE_API_Q_DEB822, 'encfile-api:iter_paragraphs': ENCFILE_API_Q_ITER,
+                           'gpgapi-encfile:utf-8': 3900, 'gpgapi-encfile:8bit-ascii-text': 3400}},
 }
 FLOORS['thorough'] = {
     'nontrivial': 95000,
@@ -118,12 +133,25 @@ FLOORS['thorough'] = {
                  'doc:paragraphs>=2': 57000}}
 
 CONTAINERS = ('str', 'bytes', 'lines_nl', 'lines_nonl', 'textio', 'bytesio')
+# real file objects.  'tw:<enc>' = io.TextIOWrapper(io.BytesIO(text.encode(enc)), encoding=enc),
+# 'tf:<enc>' = open(path, 'r', encoding=enc) on a file holding text.encode(enc), 'binfile' = open(path, 'rb') (UTF-8).
+# One slot per encoding family; the spelling of the encoding (it becomes the object's .encoding attribute) and the
+# kind (tw / tf) alternate over the cells of the form grid and over cases.
+ENC_SLOTS = (('utf-8', 'UTF-8'), ('iso-8859-1', 'latin-1'), ('cp1252', 'cp1252'), ('utf-16', 'utf-16'))
+UTF8_SPELLINGS = frozenset(['utf-8', 'UTF-8'])
+ASCII_COMPATIBLE_8BIT = frozenset(['iso-8859-1', 'latin-1', 'cp1252'])
+TW_NEWLINES = (None, None, '', '\n')
+UNJUDGED_SAMPLE = 8          # the unjudged Dsc/Changes forms are executed (and counted) for 1 case in 8
 DUMP_MODES = ('str', 'fd_b', 'fd_b_enc', 'fd_t')
 STRUCTURED = frozenset(['files', 'checksums-sha1', 'checksums-sha256', 'checksums-sha512'])
 
 # ---------------------------------------------------------------------------
 # workload generators (model side; no library code)
 
+# names whose first character is a digit or punctuation (policy-valid: anything in 33..126 but ':', not starting '#'/'-')
+ODD_START_NAMES = ['3rd-Party', '$x', '+a', '.b', '/c', '(d', '*e', '0ad', '9', '_u', '~t', '@home', '%p', '=eq', '?q',
+                   '[k]', '{m}', '|', '"q', "'s", '&and', ')', ',', ';s', '<lt', '>gt', '\\b', '^c', '`t', '!bang', '2-F',
+                   '7zip', '.', '+', '1', '$Id$', '(c)', '*']
 REAL_NAMES = ['Package', 'Version', 'Description', 'Depends', 'X-Foo', 'Foo_Bar', 'x!y', 'b9', 'A', 'Maintainer',
               'Hash', 'Source', 'Binary', 'Format', 'X-Comment', 'Vcs-Git', 'a', 'Z9_', 'x-----BEGIN', 'PGP',
               'Tag', 'Built-Using', '0', '!', 'X#Y', 'a-']
@@ -147,8 +175,11 @@ MARK_TRAILS = ['', '', ' ', '\t', '  ', '\r', ' \r', '\t \r', ' \t']
 
 def gen_name(r, used):
     for _ in range(100):
-        if r.random() < 0.6:
+        k = r.random()
+        if k < 0.5:
             n = r.choice(REAL_NAMES)
+        elif k < 0.65:
+            n = r.choice(ODD_START_NAMES)
         else:
             n = ''.join(r.choice(NAME_CHARS) for _ in range(r.randint(1, 8)))
         if n[0] in '#-':
@@ -198,9 +229,23 @@ def gen_paragraph(r):
     return para
 
 
+# character profiles: the same generator, with the non-ASCII atoms mapped into what the 8-bit encodings can hold
+PROFILES = ('any', 'any', 'latin1', 'latin1', 'cp1252', 'cp1252', 'ascii')
+PROFILE_MAP = {
+    'any': {},
+    'latin1': {'\u6f22': '\xdf', '\u5b57': '\xf1', '\u20ac': '\xa3'},                 # ss, n-tilde, pound
+    'cp1252': {'\u6f22': '\u0152', '\u5b57': '\u017e', '\xfc': '\u201c'},             # OE, z-caron, left double quote
+    'ascii': {'\xe9': 'e', '\xfc': 'u', '\u6f22': 'K', '\u5b57': 'J', '\u20ac': 'E'},
+}
+PROFILE_TABLES = dict((k, str.maketrans(v)) for k, v in PROFILE_MAP.items())
+
+
 def gen_doc(r):
     n = r.choice([1, 1, 1, 2, 2, 3, 4])
-    return [gen_paragraph(r) for _ in range(n)]
+    doc = [gen_paragraph(r) for _ in range(n)]
+    table = PROFILE_TABLES[r.choice(PROFILES)]
+    return [[[name, first.translate(table), [c.translate(table) for c in conts]] for name, first, conts in para]
+            for para in doc]
 
 
 def grid_docs():
@@ -222,6 +267,14 @@ def grid_docs():
         for cs in contsets[:10]:
             yield i, [[['A', '1', []], ['B', f, list(cs)]], [['C', f, list(cs)], ['D', '2', []]]]
             i += 1
+    # every admissible FIRST character of a field name (all of 33..126 but ':', '#', '-'), alone and as a prefix:
+    # as first field of the document, after a single-line field, after a multi-line value (last); values carry
+    # latin-1-encodable non-ASCII text so that the 8-bit text-file forms see these documents too
+    for c in NAME_CHARS:
+        if c in '#-':
+            continue
+        yield i, [[[c, 'v\xe9', [' w']], ['Mid', '1', []], [c + 'n-' + c, '', ['\tz', ' y\xfc']], [c + '3', c, []]]]
+        i += 1
 
 
 # ---------------------------------------------------------------------------
@@ -260,6 +313,10 @@ def features(ctx, doc):
     for para in doc:
         for name, first, conts in para:
             t = first.strip(' \t')
+            if name[0].isdigit():
+                ctx.count('feat:name-starts-digit')
+            elif not name[0].isalpha():
+                ctx.count('feat:name-starts-punct')
             if first.rstrip(' \t') != first:
                 ctx.count('feat:first-trailing-blank')
             if t.startswith(':'):
@@ -383,7 +440,20 @@ def diff(expected, got):
 
 
 DIMS = ('container', 'armour', 'comments', 'lead', 'api')
-TEXT_UNITS = {'str': 'text', 'lines_nl': 'text', 'lines_nonl': 'text', 'textio': 'text', 'bytes': 'bytes', 'bytesio': 'bytes'}
+TEXT_UNITS = {'str': 'text', 'lines_nl': 'text', 'lines_nonl': 'text', 'textio': 'text', 'bytes': 'bytes', 'bytesio': 'bytes',
+              'binfile': 'bytes'}
+
+
+def unit_of(cont):
+    return 'text' if cont[:3] in ('tw:', 'tf:') else TEXT_UNITS[cont]
+
+
+def is_encfile(cont):
+    return cont[:3] in ('tw:', 'tf:')
+
+
+def enc_family(enc):
+    return 'utf-8' if enc in UTF8_SPELLINGS else ('8bit' if enc in ASCII_COMPATIBLE_8BIT else enc)
 
 
 def scope(failing, executed):
@@ -391,19 +461,83 @@ def scope(failing, executed):
     if len(failing) == len(executed):
         return 'all-forms'
     parts = []
-    fu = set(TEXT_UNITS[f[0]] for f in failing)
-    au = set(TEXT_UNITS[f[0]] for f in executed)
+    fu = set(unit_of(f[0]) for f in failing)
+    au = set(unit_of(f[0]) for f in executed)
     unit_confined = len(fu) == 1 and len(au) > 1
+    # the other dimensions are judged among the executed forms of the FAILING containers only: the real-file
+    # containers rotate over the cells of the grid, so "every cell this container ran in" is the relevant whole
+    fconts = set(f[0] for f in failing)
+    same_cont = [f for f in executed if f[0] in fconts]
     for i, dim in enumerate(DIMS):
         fv = set(f[i] for f in failing)
-        av = set(f[i] for f in executed)
+        av = set(f[i] for f in (executed if dim == 'container' else same_cont))
         if fv == av:
             continue
-        if dim == 'container' and unit_confined and fv == set(k for k in av if TEXT_UNITS[k] in fu):
+        if dim == 'container' and unit_confined and fv == set(k for k in av if unit_of(k) in fu):
             parts.append('unit=%s' % list(fu)[0])
+        elif dim == 'container' and all(is_encfile(k) for k in fv):
+            # confined to real text file objects with a declared encoding: name the encoding FAMILIES only (which
+            # spellings / kinds a case runs rotates, and which 8-bit encodings can hold a document varies - neither
+            # belongs in a mechanism key)
+            fams = sorted(set(enc_family(k[3:]) for k in fv))
+            afams = set(enc_family(k[3:]) for k in av if is_encfile(k))
+            if set(fams) == afams:
+                parts.append('container=text-file-with-declared-encoding')
+            else:
+                parts.append('container=text-file-with-declared-encoding(%s)' % '+'.join(fams))
         else:
             parts.append('%s=%s' % (dim, '+'.join(str(v) for v in sorted(fv, key=str))))
     return ','.join(parts) if parts else 'some-forms'
+
+
+def rotation(cell, salt):
+    """cell = arm*4 + comments*2 + lead.  -> (which half of ENC_SLOTS, kind bit, spelling bit).
+
+    half: parity of (comments + lead + arm + salt) - so the two cells of a half differ in BOTH comments and lead, and
+    the armoured cells use the opposite assignment: over the 8 cells of a single paragraph each half meets all four
+    comments x lead combinations.  kind: flips between the two plain (and the two armoured) cells of a half.
+    spelling: per case, flipped for the armoured cells."""
+    arm, com, lead = cell >> 2, (cell >> 1) & 1, cell & 1
+    half = (arm + com + lead + salt) & 1
+    kind_bit = (com + (salt >> 1)) & 1
+    spell_bit = (arm + (salt >> 2)) & 1
+    return half, kind_bit, spell_bit
+
+
+def workdir(ctx):
+    d = getattr(ctx, '_c02_workdir', None)
+    if d is None:
+        d = ctx._c02_workdir = ctx.tmpdir()
+    return d
+
+
+def _noop():
+    pass
+
+
+def open_source(cont, lines, final_nl, blobs, written, tmp, tw_newline):
+    """A FRESH input object of form `cont` (file objects are consumed by one parse) and its closer."""
+    if cont in TEXT_UNITS and cont != 'binfile':
+        return container(cont, lines, final_nl), _noop
+    if cont[:3] == 'tw:':
+        f = io.TextIOWrapper(io.BytesIO(blobs[cont]), encoding=cont[3:], newline=tw_newline)
+        return f, f.close
+    path = os.path.join(tmp, 'in.bin' if cont == 'binfile' else 'in.' + cont[3:])
+    if cont not in written:
+        # rewrite in place: O_TRUNC on a file that holds data costs milliseconds on ext4 (auto_da_alloc flush)
+        try:
+            out = open(path, 'r+b')
+        except FileNotFoundError:
+            out = open(path, 'wb')
+        with out:
+            out.write(blobs[cont])
+            out.truncate()
+        written.add(cont)
+    if cont == 'binfile':
+        f = open(path, 'rb')
+    else:
+        f = open(path, 'r', encoding=cont[3:])
+    return f, f.close
 
 
 # ---------------------------------------------------------------------------
@@ -471,10 +605,17 @@ def evaluate(ctx, case, record=True):
     c_base = with_comments(base, r)
     c_blanks = with_comments(blanks, r) if r.random() < 0.5 else blanks     # comments around the leading blank lines
     final_nl = r.random() < 0.75
+    # drawn AFTER all older decorations, so that a recorded case keeps the decorations it had
+    salt = r.getrandbits(16)
+    tw_newline = r.choice(TW_NEWLINES)
+    tmp = workdir(ctx)
+    doc_nonascii = not all(l.isascii() for l in base)
     marker_trail = bool(aparams['t1'] or aparams['t2'] or aparams['t3'])
+    cell = -1
     for arm in ((0, 1) if single else (0,)):
         for com in (0, 1):
             for lead in (0, 1):
+                cell += 1
                 if arm:
                     # the armour wraps the paragraph text *including its comments*; lines outside the signed
                     # payload (before BEGIN, armour headers, signature) are not deb822 text - no comments there
@@ -483,16 +624,62 @@ def evaluate(ctx, case, record=True):
                         ctx.count('feat:marker-trailing-blank-or-cr', len(CONTAINERS))
                 else:
                     lines = ((c_blanks if com else blanks) if lead else []) + (c_base if com else base)
-                for cont in CONTAINERS:
-                    apis = ['iter_paragraphs']
-                    if single:
-                        apis.append('Deb822')
-                    if arm:
-                        apis += ['Dsc', 'Changes']
+                text = '\n'.join(lines) + ('\n' if final_nl else '')
+                text_ascii = text.isascii()
+                # -- the real-file forms of this cell.  Every cell gets two of the four encoding families (and every
+                # other cell the binary file); the halves, the kind (tw / tf) and the spelling of the encoding rotate
+                # so that within ONE case every family is seen through both kinds and, on single paragraphs, under
+                # all four comments x leading-blank combinations (see rotation())
+                blobs = {}
+                conts = list(CONTAINERS)
+                half, kind_bit, spell_bit = rotation(cell, salt)
+                if half == 0:
+                    blobs['binfile'] = text.encode('utf-8')
+                    conts.append('binfile')
+                for si, spellings in enumerate(ENC_SLOTS):
+                    if si & 1 != half:
+                        continue
+                    enc = spellings[spell_bit]
+                    cont = '%s:%s' % (('tw', 'tf')[(kind_bit + (si >> 1)) & 1], enc)
+                    try:
+                        blobs[cont] = text.encode(enc)
+                    except UnicodeEncodeError:
+                        if record:
+                            ctx.count('skip:unencodable:%s' % enc)
+                        continue
+                    conts.append(cont)
+                written = set()
+                apis = ['iter_paragraphs']
+                if single:
+                    apis.append('Deb822')
+                if arm:
+                    apis += ['Dsc', 'Changes']
+                for cont in conts:
+                    encfile = is_encfile(cont)
                     for api in apis:
                         form = (cont, arm, com, lead, api)
+                        judged = True
+                        if encfile and api in ('Dsc', 'Changes'):
+                            enc = cont[3:]
+                            if enc not in UTF8_SPELLINGS and not (text_ascii and enc in ASCII_COMPATIBLE_8BIT):
+                                # see ASSUMPTIONS (GUARD): the live tree itself disagrees here; counted, never judged
+                                judged = False
+                                if not record or salt % UNJUDGED_SAMPLE:
+                                    continue
+                        src, closer = open_source(cont, lines, final_nl, blobs, written, tmp, tw_newline)
+                        if not judged:
+                            try:
+                                with warnings.catch_warnings():
+                                    warnings.simplefilter('ignore')
+                                    got = [observe((deb822.Dsc if api == 'Dsc' else deb822.Changes)(src))]
+                                ctx.count('unjudged:gpg-api-on-non-utf8-text-file:%s'
+                                          % ('agree' if diff(expected, got) is None else 'differ'))
+                            except Exception:
+                                ctx.count('unjudged:gpg-api-on-non-utf8-text-file:raise')
+                            finally:
+                                closer()
+                            continue
                         executed.append(form)
-                        src = container(cont, lines, final_nl)
                         if record:
                             ctx.mon('M')
                             ctx.count('api:%s' % api)
@@ -502,6 +689,20 @@ def evaluate(ctx, case, record=True):
                                 ctx.mon('M.comments')
                             if lead:
                                 ctx.mon('M.lead')
+                            if encfile:
+                                enc = cont[3:]
+                                ctx.mon('M.encfile')
+                                ctx.count('form:%s' % cont[:2])
+                                ctx.count('enc:%s' % enc)
+                                if doc_nonascii:
+                                    ctx.count('enc-nonascii:%s' % enc)
+                                elif text_ascii:
+                                    ctx.count('enc-ascii:%s' % enc)
+                                ctx.count('encfile-api:%s' % api)
+                                if api in ('Dsc', 'Changes'):
+                                    ctx.count('gpgapi-encfile:%s' % ('utf-8' if enc in UTF8_SPELLINGS else '8bit-ascii-text'))
+                            elif cont == 'binfile':
+                                ctx.mon('M.binfile')
                         try:
                             if api == 'iter_paragraphs':
                                 got = [observe(p) for p in deb822.Deb822.iter_paragraphs(src)]
@@ -515,6 +716,8 @@ def evaluate(ctx, case, record=True):
                             failures.setdefault('reparse-raises-%s' % type(e).__name__, []).append(
                                 (form, '%r while re-reading %r' % (e, lines)))
                             continue
+                        finally:
+                            closer()
                         res = diff(expected, got)
                         if res is not None:
                             failures.setdefault(res[0], []).append((form, '%s; input lines %r' % (res[1], lines)))
